@@ -25,7 +25,16 @@ Inductive case :=
    ids it pays; per transaction the distinct credited resources seen (None = no message) *)
 | Credit (resources : list N) (txs : list (list N)) (seen : list (list (option N)))
 (* CalculateNonce: block, tx hash; SHA-256 oracle (preimage it was asked for, digest); result *)
-| NonceOf (b : Z) (txhash : string) (preimage digest_hex : string) (impl_nonce : N).
+| NonceOf (b : Z) (txhash : string) (preimage digest_hex : string) (impl_nonce : N)
+(* the EVM Executor.Execute on one delivery: message id; the batch list (members per position) the
+   real proposalBatches built; per schedule the observed sessions (members hashed, session ids used),
+   in order of the first member; per repetition of the run-ahead schedule the member lists hashed *)
+| Sess (mid : string) (batches : list (list N)) (runs : list (list (list N * list string)))
+       (hashed : list (list (list N)))
+(* the Bitcoin Executor.Execute on one delivery: proposals (deposit nonce, resource id) in delivery
+   order; per schedule, per goroutine: the nonces it put into its transaction and the resource whose
+   UTXOs it asked for (None = none / not a configured resource), in order of the first nonce *)
+| Bexec (props : list (N * N)) (runs : list (list (list N * option N))).
 
 Definition src_domain : Z := 1.
 
@@ -115,6 +124,10 @@ Definition agree (c : case) : bool :=
       && forallb (fun p => match snd p with [o] => optN_eqb o (credit_run res (fst p)) | _ => false end)
                  (combine txs seen)
   | NonceOf b tx pre dg n => String.eqb (nonce_preimage b tx) pre && N.eqb (xor_fold (unhex dg)) n
+  | Sess mid bs runs hashed =>
+      forallb (fun r => sess_eqb (evm_sessions mid bs) r) runs
+      && forallb (fun h => nll_eqb (evm_hashed bs) h) hashed
+  | Bexec props runs => forallb (fun r => bgroups_eqb (bexec_spec props) r) runs
   end.
 
 Definition judge (c : case) : bool :=
@@ -124,6 +137,8 @@ Definition judge (c : case) : bool :=
       (* depends on chain data only: one and the same outcome in every repetition *)
       forallb (fun s => match s with [_] => true | _ => false end) seen
   | NonceOf b tx pre dg n => String.eqb (nonce_preimage b tx) pre && N.eqb (xor_fold (unhex dg)) n
+  | Sess mid bs runs hashed => sess_ok mid bs runs hashed
+  | Bexec props runs => bexec_ok props runs
   end.
 
 Definition tag (c : case) : N :=
@@ -133,6 +148,8 @@ Definition tag (c : case) : N :=
   | Credit res txs _ =>
       if existsb (fun tx => Nat.leb 2 (List.length (filter (fun r => existsb (N.eqb r) tx) res))) txs then 7%N else 6%N
   | NonceOf _ _ _ _ _ => 8%N
+  | Sess _ bs _ _ => match evm_hashed bs with [] => 9%N | [_] => 10%N | _ => 11%N end
+  | Bexec props _ => match bexec_spec props with [] => 12%N | [_] => 13%N | [_; _] => 14%N | _ => 15%N end
   end.
 
 Definition check_all := check_cases agree judge tag.
